@@ -295,6 +295,15 @@ Proof.
   - contradiction.
 Qed.
 
+(* whichever of the two source shapes of is_ignored is present: a spelling that resolves to root ++ rel and that the literal re-rooting
+   already sees by its path inside the root is seen that way by the parser *)
+Lemma parser_view_at_resolved cwd root g rel :
+  resolve cwd g = (root ++ rel)%list -> parser_view root g = (unrooted rel, rel) -> parser_view_at cwd root g = (unrooted rel, rel).
+Proof.
+  intros Hr Hv. unfold parser_view_at. destruct repo_ignore_resolves_before_reroot; [|exact Hv].
+  rewrite Hr, strip_prefix_app. reflexivity.
+Qed.
+
 Theorem confinement_absolute q e sg cfg lead rel lg raw :
   rel <> [] -> e_root e = lead ->
   resolve (e_cwd e) (GP true (lead ++ rel)) = (lead ++ rel)%list ->
@@ -315,16 +324,18 @@ Proof.
   rewrite HX. destruct (hard_excluded rel (name_of rel)); [reflexivity|].
   assert (HV : parser_view (e_root e) (GP true (lead ++ rel)) = (unrooted rel, rel))
     by (rewrite Hroot; apply parser_view_abs_under_root).
+  assert (HVA : parser_view_at (e_cwd e) (e_root e) (GP true (lead ++ rel)) = (unrooted rel, rel))
+    by (apply parser_view_at_resolved; [rewrite Hroot; exact Hres|exact HV]).
   assert (HO : orch_ignored q e (GP true (lead ++ rel)) rel = repo_ignored (e_root_pats e) (unrooted rel) rel).
-  { unfold orch_ignored. destruct (q_ignore_no_reroot q); [rewrite HV|]; reflexivity. }
+  { unfold orch_ignored. destruct (q_ignore_no_reroot q); [rewrite HVA|]; reflexivity. }
   rewrite HO. destruct (repo_ignored (e_root_pats e) (unrooted rel) rel) eqn:ER; [reflexivity|].
   assert (HR : cs_cwd_parser sg && rule_ignored q e (GP true (lead ++ rel)) rel = false).
   { unfold rule_ignored. destruct (q_rule_parser_cwd q && ignore_parser_default_root_is_cwd); [|rewrite HO; apply andb_false_r].
     destruct Hcwd as [Hc|[Hc|Hc]].
     - rewrite Hc. reflexivity.
-    - rewrite Hc, HV. cbn [fst snd]. rewrite ER. apply andb_false_r.
+    - rewrite Hc, HVA. cbn [fst snd]. rewrite ER. apply andb_false_r.
     - destruct (list_eqb (e_cwd e) (e_root e)).
-      + rewrite HV. cbn [fst snd]. rewrite ER. apply andb_false_r.
+      + rewrite HVA. cbn [fst snd]. rewrite ER. apply andb_false_r.
       + rewrite Hc. unfold repo_ignored. cbn [existsb]. apply andb_false_r. }
   assert (HF : fp_path q e (GP true (lead ++ rel)) rel = unrooted rel).
   { unfold fp_path. destruct (q_fp_relative_unchanged q && negb fp_relative_paths_rerooted); [rewrite HV|]; reflexivity. }
@@ -410,16 +421,18 @@ Proof.
   assert (HX : (if q_excl_all_parts q && scope_given hard_exclusion_scope then all_parts (GP false rel) else rel) = rel)
     by (destruct (q_excl_all_parts q && scope_given hard_exclusion_scope); reflexivity).
   rewrite HX. destruct (hard_excluded rel (name_of rel)); [reflexivity|].
+  assert (HVA : parser_view_at (e_cwd e) (e_root e) (GP false rel) = (unrooted rel, rel))
+    by (apply parser_view_at_resolved; [exact Hres|apply parser_view_project_relative]).
   assert (HO : orch_ignored q e (GP false rel) rel = repo_ignored (e_root_pats e) (unrooted rel) rel).
-  { unfold orch_ignored. destruct (q_ignore_no_reroot q); reflexivity. }
+  { unfold orch_ignored. destruct (q_ignore_no_reroot q); [rewrite HVA|]; reflexivity. }
   rewrite HO. destruct (repo_ignored (e_root_pats e) (unrooted rel) rel) eqn:ER; [reflexivity|].
   assert (HR : cs_cwd_parser sg && rule_ignored q e (GP false rel) rel = false).
   { unfold rule_ignored. destruct (q_rule_parser_cwd q && ignore_parser_default_root_is_cwd); [|rewrite HO; apply andb_false_r].
     destruct Hcwd as [Hc|[Hc|Hc]].
     - rewrite Hc. reflexivity.
-    - rewrite Hc. cbn [parser_view g_abs fst snd pstr all_parts g_parts app]. rewrite ER. apply andb_false_r.
+    - rewrite Hc, HVA. cbn [fst snd]. rewrite ER. apply andb_false_r.
     - destruct (list_eqb (e_cwd e) (e_root e)).
-      + cbn [parser_view g_abs fst snd pstr all_parts g_parts app]. rewrite ER. apply andb_false_r.
+      + rewrite HVA. cbn [fst snd]. rewrite ER. apply andb_false_r.
       + rewrite Hc. unfold repo_ignored. cbn [existsb]. apply andb_false_r. }
   assert (HF : fp_path q e (GP false rel) rel = unrooted rel).
   { unfold fp_path. destruct (q_fp_relative_unchanged q && negb fp_relative_paths_rerooted); reflexivity. }
@@ -496,3 +509,18 @@ Proof.
   intros H. unfold find_root. rewrite (find_root_len_above _ _ _ H), map_app.
   rewrite <- (map_length lv_name above) at 1. apply firstn_app_2.
 Qed.
+
+(* ---------- directive stores: the key under which DRY stores the ignore ranges / the content of a file is the key it looks them up
+   with, for every working directory and every spelling of the target (both key scopes are read from the source: a change of one
+   side alone breaks this proof) ---------- *)
+Theorem directive_stores_agree cwd g : dry_directives_honoured cwd g = true.
+Proof.
+  unfold dry_directives_honoured, store_hit. apply andb_true_intro. split; apply String.eqb_refl.
+Qed.
+
+(* the statement is not vacuous in the scopes: storing under the resolved path and asking with the path as given loses the entry of a
+   relatively spelled file (and keeps it for the absolute spelling) *)
+Theorem mixed_key_scopes_refuted :
+  store_hit ScResolvedStr ScGivenStr ["s"; "ok"] (GP false ["proj"; "src"; "mod.py"]) = false
+  /\ store_hit ScResolvedStr ScGivenStr ["s"; "home"] (GP true ["s"; "ok"; "proj"; "src"; "mod.py"]) = true.
+Proof. split; vm_compute; reflexivity. Qed.
